@@ -338,6 +338,13 @@ class PEOp(IRDLOperation):
         return pe_op
 
 
+def same_operation(a: Operation, b: Operation) -> bool:
+    """
+    Two operations offer the same computation: same name, same properties and attributes
+    """
+    return a.name == b.name and a.properties == b.properties and a.attributes == b.attributes
+
+
 @irdl_op_definition
 class ChooseOp(IRDLOperation):
     """
@@ -440,9 +447,15 @@ class ChooseOp(IRDLOperation):
         # FIXME, what if operation order is swapped? i.e. rhs on lhs side and vice versa?
         data_operand_types = ChooseOp._check_operand_types(self.data_operands, operations)
         for operation in operations:
-            if operation.name not in [op.name for op in self.operations()]:
+            # an operation is present only if name AND properties / attributes agree (arith.cmpi slt is not sgt)
+            if not any(same_operation(operation, op) for op in self.operations()):
                 block = Block(arg_types=data_operand_types)
-                block.add_ops([op := type(operation)(*block.args), YieldOp(op)])
+                op = operation.clone()
+                for result in op.results:
+                    result.name_hint = None
+                for i, val in enumerate(block.args):
+                    op.operands[i] = val
+                block.add_ops([op, YieldOp(op)])
                 self.add_region(Region(block))
 
     def operations(self) -> Iterator[Operation]:
